@@ -1,0 +1,1 @@
+//! Verification doors: demux (cfg(trusttunnel_verif) only)
